@@ -270,7 +270,8 @@ class Contract(object):
     def __init__(self, target, params=None, requires=None, ensures=None, raises=None, kind="function",
                  yield_count=None, yield_at=None, yield_post=None, loops=None, result=None, effect=None,
                  inline=False, opaque=(), note="", exc_ensures=None, modifies=(),
-                 yield_seq=0, yield_encode=None, yields_eq=None, native_yields=None, native_post=None, findings=()):
+                 yield_seq=0, yield_encode=None, yields_eq=None, native_yields=None, native_post=None, findings=(),
+                 name=None, when=None):
         self.target = target
         self.modname, self.qualname = target.split(":")
         self.params = params or {}
@@ -295,6 +296,8 @@ class Contract(object):
         self.native_yields = native_yields    # args -> expected python list (replay / adequacy)
         self.native_post = native_post        # args, result -> [(label, bool)] (replay)
         self.findings = list(findings)
+        self.name = name or target          # unique key of the contract (several contracts may share a target)
+        self.when = when                    # call-site applicability: lambda over call arguments
 
 
 def call_by_names(fn, avail):
@@ -367,6 +370,7 @@ class Engine(object):
         return SOpt(z3.Bool(self.fresh(base + "!none")), z3.Int(self.fresh(base)))
 
     def assume(self, e):
+        self.drain()
         e = _be(e) if not isinstance(e, z3.BoolRef) else e
         self.run.pc.append(e)
 
@@ -381,9 +385,14 @@ class Engine(object):
         self.stats["feas_time"] += time.time() - t0
         return r != z3.unsat
 
+    def drain(self):
+        if sym.PENDING_FACTS and self.run is not None:
+            self.run.pc.extend(sym.drain_facts())
+
     def decide(self, c):
         if isinstance(c, bool):
             return c
+        self.drain()
         c = z3.simplify(_be(c))
         if z3.is_true(c):
             return True
@@ -442,6 +451,7 @@ class Engine(object):
 
     # ---------------------------------------------------------------- obligations
     def prove(self, goal, kind, lineno=0, detail=""):
+        self.drain()
         pairs = conjuncts(goal if isinstance(goal, (list, tuple)) else SBool(_be(goal)) if not isinstance(goal, bool) else goal) if not isinstance(goal, bool) else [("", z3.BoolVal(goal))]
         for label, e in pairs:
             e = z3.simplify(e)
@@ -462,6 +472,7 @@ class Engine(object):
         while work:
             prefix = work.pop()
             self.run = Run(prefix)
+            sym.drain_facts()
             n += 1
             self.paths += 1
             if n > self.max_paths:
@@ -623,6 +634,7 @@ class Engine(object):
 
     def valid(self, e):
         """is e valid under the current path condition? (used for side conditions; sound: only 'unsat' counts)"""
+        self.drain()
         s = z3.Solver()
         s.set("timeout", 2000)
         s.add(*self.run.pc)
